@@ -61,6 +61,21 @@ if ! build "$VARIANT" 2>"$B/build-$ID.log"; then
   exit 2
 fi
 
+# C12: free-running -race complement, same scenario table, accessor-only overlay (no rewriting, real sync)
+if [ "$ID" = C12 ] && [ "$MODE" = check ]; then
+  (
+    flock 9
+    cd $V/mc || exit 2
+    ov=$(mktemp -d "$B/ov-race.XXXXXX")
+    "$B/bin/vinstr" -mode add -repo /repo -out "$ov" >"$ov/vinstr.log" 2>&1 &&
+      go build -race -tags verif -overlay "$ov/overlay.json" -o "$B/bin/racecomp.tmp" ./cmd/racecomp && mv -f "$B/bin/racecomp.tmp" "$B/bin/racecomp"
+    rc=$?
+    rm -rf "$ov"
+    exit $rc
+  ) 9>"$B/build.lock" 2>>"$B/build-$ID.log"
+  if [ $? -eq 0 ]; then export VERIF_RACECOMP="$B/bin/racecomp"; else echo "note: -race complement could not be built (see $B/build-$ID.log)"; fi
+fi
+
 if [ "$MODE" = replay ]; then
   exec "$B/bin/mc-$VARIANT" replay "$2"
 fi
